@@ -273,6 +273,13 @@ def r4(ctx, rep):
         for n in walk(f["body"]):
             if n.get("k") == "local" and n.get("init") is not None and n["pat"].get("k") == "p_ident":
                 inits.setdefault(n["pat"]["n"], []).append(n["init"])
+        # a name that a match arm, an `if let` or a closure binds as well is not followed: inside that arm it is the matched value, not the local
+        for n in walk(f["body"]):
+            pats = [a_["pat"] for a_ in n["arms"]] if n.get("k") == "match" else ([n["pat"]] if n.get("k") == "let" else (n.get("params", []) if n.get("k") == "closure" else []))
+            for p_ in pats:
+                for x in walk(p_):
+                    if x.get("k") == "p_ident":
+                        inits.pop(x["n"], None)
 
         def folded(expr, depth=0, _inits=inits):
             if folded_expr(expr):
